@@ -335,7 +335,11 @@ def rule_readers(chk, fb, store, mapf, sets, orient):
         except Exception as e:
             continue
         if len(paths) != 1:
-            continue
+            # several paths that only differ in Some/None tests of the same values: keep the all-present one
+            full = [p_ for p_ in paths if p_[2] and all(isinstance(c_, tuple) and c_ and c_[0] == "discr" and v_ == 1 for c_, v_ in p_[2])]
+            if len(full) != 1 or not all(all(isinstance(c_, tuple) and c_ and c_[0] == "discr" for c_, _ in p_[2]) for p_ in paths):
+                continue
+            paths = full
         ret, heap, conds = paths[0]
         chk.touch(d)
         # lookups
@@ -378,6 +382,7 @@ def rule_readers(chk, fb, store, mapf, sets, orient):
         # extent
         if ret[0] == "tuple" and len(ret[1]) == 2 and all("last" in show(x) for x in ret[1]):
             a, bb = show(ret[1][0]), show(ret[1][1])
+            a, bb = a.replace(" as Some.0", ""), bb.replace(" as Some.0", "")
             ok = colmajor in a and rowmajor not in a and a.endswith(".0") and rowmajor in bb and colmajor not in bb and bb.endswith(".0")
             chk.ob(re_, "%s:extent" % d, ok, where=fb.loc(d), detail="(highest column, highest row) = (%s, %s); column-major index is %s, row-major %s" % (a[:80], bb[:80], colmajor, rowmajor))
 
